@@ -919,6 +919,12 @@ pub open spec fn yields_key<P: Prefix, L, R>(tl: Seq<Node<P, L>>, tr: Seq<Node<P
     &&& (forall|m: int| #![trigger tlive(tr).contains(m)] rem_r(tl, tr, xb, es1, m) == (rem_r(tl, tr, xb, es0, m) && !(kb(tr, m) =~= x)))
 }
 
+/// key x belongs to a remaining entry of at least one view
+pub open spec fn key_rem<P: Prefix, L, R>(tl: Seq<Node<P, L>>, tr: Seq<Node<P, R>>, xa: Seq<bool>, xb: Seq<bool>, es: Seq<Ent>, x: Seq<bool>) -> bool {
+    (exists|n: int| #![trigger tlive(tl).contains(n)] rem_l(tl, tr, xa, es, n) && kb(tl, n) =~= x)
+    || (exists|m: int| #![trigger tlive(tr).contains(m)] rem_r(tl, tr, xb, es, m) && kb(tr, m) =~= x)
+}
+
 /// the remaining sets of two stacks agree (only value-less positions were skipped in between)
 pub open spec fn same_rem<P: Prefix, L, R>(tl: Seq<Node<P, L>>, tr: Seq<Node<P, R>>, xa: Seq<bool>, xb: Seq<bool>, es0: Seq<Ent>, es1: Seq<Ent>) -> bool {
     &&& (forall|n: int| #![trigger tlive(tl).contains(n)] rem_l(tl, tr, xa, es1, n) == rem_l(tl, tr, xa, es0, n))
